@@ -79,7 +79,10 @@ pub uninterp spec fn lex_le(a: Seq<u8>, b: Seq<u8>) -> bool;
 pub broadcast axiom fn ax_lex_total(a: Seq<u8>, b: Seq<u8>) ensures #[trigger] lex_le(a, b) || lex_le(b, a);
 pub broadcast axiom fn ax_lex_antisym(a: Seq<u8>, b: Seq<u8>) requires #[trigger] lex_le(a, b), #[trigger] lex_le(b, a) ensures a == b;
 pub broadcast axiom fn ax_lex_trans(a: Seq<u8>, b: Seq<u8>, c: Seq<u8>) requires #[trigger] lex_le(a, b), #[trigger] lex_le(b, c) ensures lex_le(a, c);
-pub broadcast group group_lex { ax_lex_total, ax_lex_antisym, ax_lex_trans }
+/// array extensionality (proved, not assumed): arrays with equal views are equal
+pub broadcast proof fn lemma_array_ext<T, const N: usize>(a: [T; N], b: [T; N])
+    requires a@ =~= b@ ensures #![trigger a@, b@] a == b { assert(a =~= b); }
+pub broadcast group group_lex { ax_lex_total, ax_lex_antisym, ax_lex_trans, lemma_array_ext }
 //@broadcast group_lex
 pub open spec fn sort2(a: Seq<u8>, b: Seq<u8>) -> Seq<Seq<u8>> { if lex_le(a, b) { seq![a, b] } else { seq![b, a] } }
 pub open spec fn sort3(a: Seq<u8>, b: Seq<u8>, c: Seq<u8>) -> Seq<Seq<u8>> {
